@@ -904,6 +904,11 @@ func tsdCase(c *core.Ctx, r *rand.Rand) {
 				}
 			}
 		}
+		// Round 9: the decoder that just read this block is re-armed on an input without a complete block and must
+		// answer like a decoder that never held one (rejected.go)
+		if r.Intn(3) == 0 {
+			tsdRearmThenAsk(c, r, 0, dec, b.data, !b.noTime, b.start, b.end())
+		}
 		// Seek oracle pass: after Seek(s) on a re-armed decoder, slot-addressed reads of every slot >= s
 		// must equal the sequential decode (theorems tsd_seek_then_read / tsd_seek_gap).
 		if len(b.mask) >= 2 && b.mask[0] && r.Intn(2) == 0 {
@@ -1266,6 +1271,10 @@ func deltaCase(c *core.Ctx, r *rand.Rand) {
 				break
 			}
 		}
+		// Round 9: Reset on empty / cut / random bytes = a new decoder on the same bytes (rejected.go)
+		if r.Intn(3) == 0 {
+			deltaRearmThenAsk(c, r, 0, dec, data, n)
+		}
 	}
 }
 
@@ -1306,6 +1315,7 @@ func fixedOffsetCase(c *core.Ctx, r *rand.Rand) {
 		}
 	}()
 	rounds := 1 + r.Intn(4)
+	heldN, heldData := 0, []byte(nil) // the table `dec` holds right now (heldN == 0: none)
 	for round := 0; round < rounds; round++ {
 		inc := r.Intn(3) > 0
 		if enc == nil || r.Intn(3) == 0 {
@@ -1386,11 +1396,12 @@ func fixedOffsetCase(c *core.Ctx, r *rand.Rand) {
 		r.Read(junk)
 		full := append(cp(data), junk...)
 		switch k := r.Intn(3); {
-		case dec == nil || k == 0:
+		case dec == nil || (k == 0 && !(n == 0 && heldN > 0 && r.Intn(2) == 0)):
 			if dec != nil {
 				encoding.ReleaseFixedOffsetDecoder(dec)
 				c.Op("fd rel 0", "ok")
 			}
+			heldN, heldData = 0, nil
 			if r.Intn(2) == 0 {
 				c.Branch("fo-decoder-new")
 				guard(c, "fd new 0", func() string { dec = encoding.NewFixedOffsetDecoder(); return "ok" })
@@ -1400,7 +1411,7 @@ func fixedOffsetCase(c *core.Ctx, r *rand.Rand) {
 			}
 		default:
 			c.Branch("fo-decoder-reused")
-			if r.Intn(2) == 0 {
+			if r.Intn(2) == 0 && !(n == 0 && heldN > 0) {
 				c.Branch("fo-decoder-fault-before-reuse")
 				bad := make([]byte, r.Intn(8))
 				r.Read(bad)
@@ -1430,10 +1441,26 @@ func fixedOffsetCase(c *core.Ctx, r *rand.Rand) {
 		if n == 0 {
 			// stated guard: an empty table is written as nothing and is rejected by the decoder
 			c.Branch("fo-empty-table")
+			if heldN > 0 {
+				// Round 9: the EMPTY table on a decoder that holds a table: it must decode to what a fresh decoder
+				// makes of the same bytes (no offsets), not to the previous table
+				c.Branch("fo-empty-table-on-used-decoder")
+				c.NonTrivial()
+				var fresh *encoding.FixedOffsetDecoder
+				guard(c, fmt.Sprintf("fd new %d", freshOff), func() string { fresh = encoding.NewFixedOffsetDecoder(); return "ok" })
+				foUnm(c, freshOff, fresh, full)
+				foAskBoth(c, r, 0, dec, fresh, heldN, fmt.Sprintf("that held a table of %d offsets and was then given the marshalled EMPTY table (+%d trailing bytes; Unmarshal error: %v)", heldN, len(junk), uerr), uerr != nil)
+				c.Op(fmt.Sprintf("fd rel %d", freshOff), "ok")
+			}
+			heldN, heldData = 0, nil
 			continue
 		}
 		c.NonTrivial()
 		c.Branch(fmt.Sprintf("fo-width-%d", dec.ValueWidth()))
+		heldN, heldData = 0, nil
+		if uerr == nil {
+			heldN, heldData = n, data
+		}
 		if uerr != nil {
 			c.Fail("fo-roundtrip", fmt.Sprintf("Unmarshal of a marshalled table of %d offsets failed: %v", n, uerr))
 			continue
@@ -1483,6 +1510,12 @@ func fixedOffsetCase(c *core.Ctx, r *rand.Rand) {
 					return "ok " + hx(b)
 				})
 			}
+		}
+		// Round 9: rejected inputs on the decoder that holds this table (rejected.go); it stays in use
+		if heldN > 0 && r.Intn(2) == 0 {
+			other := []byte{2, 3, byte(r.Intn(256)), 0, byte(r.Intn(256)), 1, byte(r.Intn(256)), 2}
+			foRejectedThenAsk(c, r, 0, dec, heldData, heldN, other)
+			heldN, heldData = 0, nil
 		}
 	}
 }
@@ -2083,6 +2116,9 @@ func streamCase(c *core.Ctx, r *rand.Rand) {
 			guard(c, "sr reset 1 "+hx(raw), func() string { rd2.Reset(raw); return fmt.Sprintf("- %s", srState(rd2)) })
 		}
 	}
+	// Round 9: the reader, in whatever state the free-form reads left it, is Reset on an empty / short / other
+	// buffer and must answer like a new reader on the same bytes (rejected.go)
+	srRearmThenAsk(c, r, 1, rd2, raw)
 	// --- TSD stream: several fields over one slot range, read back through the pooled field decoder;
 	// two readers in a row, so the second one is handed the decoder the first one released
 	n := 1 + r.Intn(20)
